@@ -299,6 +299,12 @@ impl<'a> ReplyData<'a> {
             }
         });
 
+        // The `data` parameter belongs to the `success` handler, which doesn't have to be
+        // the first one declared for this reply id.
+        if self.data.is_none() {
+            self.data = new_reply_data.data;
+        }
+
         let new_function_name = new_handler.function_name();
         let new_reply_on = new_handler.msg_attr().reply_on();
         self.handlers.push((new_function_name, new_reply_on));
